@@ -34,8 +34,9 @@ const (
 )
 
 type jfield struct {
-	key string
-	val *jnode
+	key  string // concrete key ("" with skey set for a symbolic one)
+	skey symstr // key with symbolic bytes (map keys only)
+	val  *jnode
 }
 
 type jnode struct {
@@ -248,8 +249,11 @@ func (i *interpreter) jsonEncode(t types.Type, v value, depth int) *jnode {
 			switch k := e.key.(type) {
 			case string:
 				ks = k
-			case symstr, sym:
-				panic(unsupported{"json: map with symbolic keys"})
+			case symstr:
+				n.fields = append(n.fields, jfield{skey: k, val: i.jsonEncode(tt.Elem(), e.val, depth+1)})
+				continue
+			case sym:
+				panic(unsupported{"json: map with symbolic non-string keys"})
 			default:
 				if kb, ok := tt.Key().Underlying().(*types.Basic); ok && kb.Info()&types.IsInteger != 0 {
 					if kb.Info()&types.IsUnsigned != 0 {
@@ -261,9 +265,15 @@ func (i *interpreter) jsonEncode(t types.Type, v value, depth int) *jnode {
 					panic(unsupported{"json: map key type " + tt.Key().String()})
 				}
 			}
-			n.fields = append(n.fields, jfield{ks, i.jsonEncode(tt.Elem(), e.val, depth+1)})
+			n.fields = append(n.fields, jfield{key: ks, val: i.jsonEncode(tt.Elem(), e.val, depth+1)})
 		}
-		sort.SliceStable(n.fields, func(a, b int) bool { return n.fields[a].key < n.fields[b].key })
+		// (keys with symbolic bytes cannot be ordered; the order only matters for the text, not the length)
+		sort.SliceStable(n.fields, func(a, b int) bool {
+			if n.fields[a].skey != nil || n.fields[b].skey != nil {
+				return false
+			}
+			return n.fields[a].key < n.fields[b].key
+		})
 		return n
 	case *types.Struct:
 		sv := v.(structure)
@@ -288,7 +298,7 @@ func (i *interpreter) jsonEncode(t types.Type, v value, depth int) *jnode {
 			if jt.omitempty && isEmptyValue(p, f.Type(), sv[fi]) {
 				continue
 			}
-			n.fields = append(n.fields, jfield{jt.name, i.jsonEncode(f.Type(), sv[fi], depth+1)})
+			n.fields = append(n.fields, jfield{key: jt.name, val: i.jsonEncode(f.Type(), sv[fi], depth+1)})
 		}
 		return n
 	case *types.Signature, *types.Chan:
@@ -400,7 +410,11 @@ func jsonLen(p *pathState, n *jnode) int {
 			if i > 0 {
 				ln++
 			}
-			ln += jsonStringLen(f.key) + 1 + jsonLen(p, f.val)
+			if f.skey != nil {
+				ln += jsonLen(p, &jnode{k: jStr, v: f.skey}) + 1 + jsonLen(p, f.val)
+			} else {
+				ln += jsonStringLen(f.key) + 1 + jsonLen(p, f.val)
+			}
 		}
 		return ln
 	}
@@ -461,6 +475,9 @@ func jsonText(buf *bytes.Buffer, n *jnode) bool {
 			if i > 0 {
 				buf.WriteByte(',')
 			}
+			if f.skey != nil {
+				return false
+			}
 			bs, _ := json.Marshal(f.key)
 			buf.Write(bs)
 			buf.WriteByte(':')
@@ -514,7 +531,7 @@ func fromGeneric(data []byte, v interface{}) *jnode {
 				for dec.More() {
 					kt, _ := dec.Token()
 					ks, _ := kt.(string)
-					n.fields = append(n.fields, jfield{ks, walk()})
+					n.fields = append(n.fields, jfield{key: ks, val: walk()})
 				}
 				dec.Token()
 				return n
@@ -721,6 +738,10 @@ func (i *interpreter) jsonDecode(n *jnode, t types.Type, addr *value, depth int)
 				var kv value
 				kb, _ := tt.Key().Underlying().(*types.Basic)
 				switch {
+				case kb != nil && kb.Info()&types.IsString != 0 && f.skey != nil:
+					kv = f.skey
+				case f.skey != nil:
+					panic(unsupported{"json: symbolic key into a non-string map key"})
 				case kb != nil && kb.Info()&types.IsString != 0:
 					kv = f.key
 				case kb != nil && kb.Info()&types.IsInteger != 0:
@@ -763,6 +784,9 @@ func (i *interpreter) jsonDecode(n *jnode, t types.Type, addr *value, depth int)
 			sv := (*addr).(structure)
 			first := ""
 			for _, f := range n.fields {
+				if f.skey != nil {
+					panic(unsupported{"json: symbolic object key decoded into a struct"})
+				}
 				fi := findJSONField(tt, f.key)
 				if fi < 0 {
 					continue
@@ -830,7 +854,11 @@ func (i *interpreter) jsonGeneric(n *jnode, depth int) value {
 		mt := types.NewMap(types.Typ[types.String], tAny)
 		m := makeMap(types.Typ[types.String], 0).(*omap)
 		for _, f := range n.fields {
-			m.insert(p, f.key, i.jsonGeneric(f.val, depth+1))
+			if f.skey != nil {
+				m.insert(p, f.skey, i.jsonGeneric(f.val, depth+1))
+			} else {
+				m.insert(p, f.key, i.jsonGeneric(f.val, depth+1))
+			}
 		}
 		return iface{mt, m}
 	}
